@@ -26,6 +26,12 @@ type Standin struct {
 }
 
 var propStandins = map[string][]Standin{
+	"C01": {{
+		Name: "roundtrip", Pkg: "internal/index", TestFile: "roundtrip_standin_test.go", TestName: "TestC01Standin", OutEnv: "C01_OUT",
+		EnvQuick: []string{"C01_ROUNDS=60", "C01_HOSTS=30000"}, EnvThorough: []string{"C01_ROUNDS=600", "C01_HOSTS=70000"},
+		Bound:   "write with the real Writer, read back with the real Reader: 60 (quick) / 600 (thorough) seeded index files of 1-8 streams (IPv4 and IPv6 hosts, TCP/UDP, 1-8 packets or 300-700 packets with few payloads (skip counters), payload pieces of 1 byte to 200000 bytes around the 64 KiB record limit, packet gaps from 0 to beyond 2^32 microseconds incl. long lived streams whose 32 bit relative times wrap while payload-less packets are skipped, capture files with packet numbers beyond 2^32), plus one file with 30000 / 70000 streams from distinct hosts (more than one host group per address family); compared: hosts, ports, protocol, byte counts, first/last time, every packet's capture file/number/direction/time, payload per direction in conversation order and its time stamps, StreamByID, StreamByFirstPacketSource",
+		Timeout: 20 * time.Minute,
+	}},
 	"C04": {{
 		Name: "payload-oracle", Pkg: "internal/index", TestFile: "search_standin_test.go", TestName: "TestC02Standin", OutEnv: "C02_OUT",
 		EnvQuick: []string{"C02_THEN=1", "C02_ANCHORS=1", "C02_ROUNDS=40", "C02_QUERIES=60"}, EnvThorough: []string{"C02_THEN=1", "C02_ANCHORS=1", "C02_ROUNDS=300", "C02_QUERIES=100"},
